@@ -106,6 +106,7 @@ def lane_hlmon(prop, tier, seed, jobs, params):
     ]
     if tier == "thorough":
         cmd.append("--thorough")
+    cmd += ["--target-prop", prop]
     cmd += params.get("args", [])
     known = [k["signature"] for k in load_known()]
     if known:
